@@ -209,6 +209,9 @@ func (fr *Frame) loopEnv(lc *loopCtx, st *State, phiVal func(*ssa.Phi) Val) *Env
 				return TV{phiVal(p), p.Type()}, true
 			}
 		}
+		if tv, ok := fr.rangeSlice(name); ok {
+			return tv, true
+		}
 		// rangeindex<k>: the hidden index of the range loop with ordinal k (this loop or an enclosing one);
 		// plain "rangeindex" always means the innermost loop and shadows the outer ones.
 		if strings.HasPrefix(name, "rangeindex") && len(name) > len("rangeindex") {
@@ -309,7 +312,7 @@ func (fr *Frame) enterLoop(h *ssa.BasicBlock, ins []edge, _ *State) *State {
 					if !strict {
 						lim = plus(L, "1")
 					}
-					lc.auto = append(lc.auto, autoInv{phi: p, name: p.Comment + "<=limit", mk: func(t string) string {
+					lc.auto = append(lc.auto, autoInv{phi: p, name: p.Comment + "<=limit", lim: lim, step: big.NewInt(c), mk: func(t string) string {
 						return implies(le(plus(ent, cs), lim), le(plus(t, cs), lim))
 					}})
 				}
@@ -366,6 +369,21 @@ func (fr *Frame) enterLoop(h *ssa.BasicBlock, ins []edge, _ *State) *State {
 			if n == 2 && p.Comment == "rangeindex" {
 				if ev, ok := entryVals[p].(Scalar); ok && (ev.T == "(- 1)" || ev.T == "-1") {
 					hi := new(big.Int).Sub(new(big.Int).Lsh(big.NewInt(1), 63), big.NewInt(2))
+					// `option range-index-limit`: the "<=limit" invariant (an obligation of its own) says index+1 <= limit;
+					// when the limit is the length of a slice (interval [0, 2^48], A-MEM) the index is at most 2^48-1, so
+					// index+2, which the invariants of the next iteration mention, does not wrap either.
+					if fr.contract != nil && fr.contract.Options["range-index-limit"] {
+						for _, a := range lc.auto {
+							if a.phi != p || a.lim == "" || a.step == nil || a.step.Cmp(big.NewInt(1)) != 0 {
+								continue
+							}
+							if llo, lhi := vc.rangeOf(a.lim, nil); llo != nil && lhi != nil && llo.Sign() >= 0 {
+								if h2 := new(big.Int).Sub(lhi, big.NewInt(1)); h2.Cmp(hi) < 0 && h2.Cmp(big.NewInt(-1)) >= 0 {
+									hi = h2
+								}
+							}
+						}
+					}
 					vc.setRange(lc.phiVals[p].(Scalar).T, big.NewInt(-1), hi)
 				}
 			}
@@ -755,4 +773,53 @@ func (vc *VC) nilMapAxioms(name, sort, h string) {
 	if strings.HasPrefix(name, "Ml|") {
 		vc.emit(fmt.Sprintf("(assert (= (select %s 0) 0))", h))
 	}
+}
+
+// rangeSlice resolves `rangeslice<k>`: the slice that the range loop with ordinal k iterates over, when it has no
+// source name (`for _, x := range f()`). It is the SSA value whose length the loop header compares the hidden index
+// with; being an SSA value computed before the loop it denotes the same slice header everywhere it is in scope.
+func (fr *Frame) rangeSlice(name string) (TV, bool) {
+	if !strings.HasPrefix(name, "rangeslice") || len(name) == len("rangeslice") {
+		return TV{}, false
+	}
+	k, err := strconv.Atoi(name[len("rangeslice"):])
+	if err != nil {
+		return TV{}, false
+	}
+	for hb, ord := range fr.loopOrd {
+		if ord != k {
+			continue
+		}
+		isIdx := false
+		for _, p := range headerPhis(hb) {
+			if p.Comment == "rangeindex" {
+				isIdx = true
+			}
+		}
+		if !isIdx {
+			continue
+		}
+		for _, in := range hb.Instrs {
+			b, ok := in.(*ssa.BinOp)
+			if !ok || b.Op != token.LSS {
+				continue
+			}
+			c, ok := b.Y.(*ssa.Call)
+			if !ok {
+				continue
+			}
+			bi, ok := c.Call.Value.(*ssa.Builtin)
+			if !ok || bi.Name() != "len" || len(c.Call.Args) != 1 {
+				continue
+			}
+			x := c.Call.Args[0]
+			if _, isSlice := under(x.Type()).(*types.Slice); !isSlice {
+				continue
+			}
+			if v, ok := fr.vals[x]; ok {
+				return TV{v, x.Type()}, true
+			}
+		}
+	}
+	return TV{}, false
 }
